@@ -98,30 +98,164 @@ def check_concrete(contract, kwargs, tree):
         nat = native(contract.qualname, kwargs, tree)
     except Exception as e:
         return {"reproduced": None, "detail": f"native call failed: {e}"}
-    ctx = Ctx(Engine(), [])
-    ctx.tol = z3.RealVal(TOL)
     failed = []
-    with ctx:
-        try:
-            pre = {k: from_json(v) for k, v in kwargs.items()}
-            post = {k: from_json(v) for k, v in nat.get("args_after", {}).items()}
-            if nat["outcome"] == "return":
-                outcome = ("return", from_json(nat["value"]))
-            else:
-                outcome = ("raise", nat["etype"])
-            ctx.tag = contract.ident + "@replay"
-            contract.check(ctx, pre, post, outcome)
-        except PyRaise as e:
-            return {"reproduced": None, "detail": f"specification raised {e.etype} in concrete mode"}
-        except Exception as e:
-            return {"reproduced": None, "detail": f"concrete-mode check failed: {type(e).__name__}: {e}"}
-        for ob in ctx.obls:
+    eng = Engine()
+
+    def body(ctx):
+        ctx.tol = z3.RealVal(TOL)
+        pre = {k: from_json(v) for k, v in kwargs.items()}
+        post = {k: from_json(v) for k, v in nat.get("args_after", {}).items()}
+        if nat["outcome"] == "return":
+            outcome = ("return", from_json(nat["value"]))
+        else:
+            outcome = ("raise", nat["etype"])
+        contract.check(ctx, pre, post, outcome)
+        return outcome
+    try:
+        paths = eng.explore(body, tag=contract.ident + "@replay")
+    except PyRaise as e:
+        return {"reproduced": None, "detail": f"specification raised {e.etype} in concrete mode"}
+    except Exception as e:
+        return {"reproduced": None, "detail": f"concrete-mode check failed: {type(e).__name__}: {e}"}
+    n_obl = 0
+    for pth in paths:
+        for ob in pth.obls:
+            n_obl += 1
             discharge(ob, 10000)
             if ob.status == "refuted":
                 failed.append(ob.oid.split("/", 1)[-1])
+
+    class _C:
+        obls = [None] * n_obl
+    ctx = _C()
     nat_short = json.dumps(nat.get("value", nat.get("etype")))[:400]
     if failed:
         return {"reproduced": True, "detail": f"real code violates {sorted(set(failed))[:4]} on the concretised input; "
                                               f"native outcome {nat['outcome']}: {nat_short}"}
     return {"reproduced": False, "detail": f"real code satisfies the contract on the concretised input "
                                            f"({len(ctx.obls)} concrete checks); native outcome {nat['outcome']}"}
+
+
+# ----------------------------------------------------------------------------------
+# bounded stand-in for functions outside the verifier's reach
+# ----------------------------------------------------------------------------------
+
+
+def random_instances(contract, count, seed, max_dim=6, big_dim=20):
+    """concrete argument sets satisfying the contract's preconditions: shapes and scalar parameters from z3
+    models under random hints, array contents seeded-random (NaNs sprinkled into arrays not declared finite)"""
+    import random
+    rnd = random.Random(seed)
+    out = []
+    tries = 0
+    while len(out) < count and tries < 6 * count:
+        tries += 1
+        ctx = Ctx(Engine(), [])
+        with ctx:
+            try:
+                env = contract.setup(ctx)
+            except Exception:
+                continue
+            s = z3.Solver()
+            s.set("timeout", 5000)
+            for f in ctx.pc:
+                s.add(f)
+            consts = set()
+            for f in ctx.pc:
+                st = [f]
+                seen = set()
+                while st:
+                    x = st.pop()
+                    if x.get_id() in seen:
+                        continue
+                    seen.add(x.get_id())
+                    if z3.is_const(x) and x.decl().kind() == z3.Z3_OP_UNINTERPRETED:
+                        consts.add(x)
+                    st.extend(x.children())
+            for v in _shape_consts(env):
+                consts.add(v)
+            hints = []
+            for x in sorted(consts, key=str):
+                if x.sort() == z3.IntSort():
+                    hi = big_dim if any(t in str(x) for t in ("Ndat", "N!", "nf", "Nf")) else max_dim
+                    hints.append(x == rnd.randint(0, hi))
+                elif x.sort() == z3.RealSort():
+                    hints.append(x == z3.RealVal(str(round(rnd.uniform(0.01, 2.0), 3))))
+                elif x.sort() == z3.BoolSort():
+                    hints.append(x == (rnd.random() < 0.5))
+            rnd.shuffle(hints)
+            # keep as many hints as stay satisfiable
+            s.push()
+            kept = []
+            for h in hints:
+                s.push()
+                s.add(h)
+                if s.check() == z3.sat:
+                    kept.append(h)
+                    s.pop()
+                    s.add(h)
+                else:
+                    s.pop()
+            if s.check() != z3.sat:
+                continue
+            m = s.model()
+            try:
+                kwargs = {k: CZ.ev_value(m, v) for k, v in env.items()}
+            except Exception:
+                continue
+            for k, v in env.items():
+                _randomise(kwargs[k], v, rnd)
+            out.append(kwargs)
+    return out
+
+
+def _shape_consts(v):
+    if isinstance(v, Arr):
+        for n in v.shape:
+            if isinstance(n, z3.ExprRef) and z3.is_const(n):
+                yield n
+    elif isinstance(v, (list, tuple)):
+        for x in v:
+            yield from _shape_consts(x)
+    elif isinstance(v, dict):
+        for x in v.values():
+            yield from _shape_consts(x)
+    elif isinstance(v, Obj):
+        for x in v.fields.values():
+            yield from _shape_consts(x)
+
+
+def _randomise(js, v, rnd):
+    if isinstance(v, Arr) and isinstance(js, dict) and "cells" in js and v.meta.get("param"):
+        fin = v.meta.get("finite", False)
+        n = len(js["cells"])
+        if js["kind"] == "float":
+            js["cells"] = [None if (not fin and rnd.random() < 0.15) else round(rnd.gauss(0, 1), 6) for _ in range(n)]
+        elif js["kind"] == "complex":
+            js["cells"] = [None if (not fin and rnd.random() < 0.15) else [round(rnd.gauss(0, 1), 6), round(rnd.gauss(0, 1), 6)]
+                           for _ in range(n)]
+        elif js["kind"] == "bool":
+            js["cells"] = [rnd.random() < 0.5 for _ in range(n)]
+    elif isinstance(v, (list, tuple)) and isinstance(js, list):
+        for a, b in zip(js, v):
+            _randomise(a, b, rnd)
+    elif isinstance(v, dict) and isinstance(js, dict):
+        for k in v:
+            if k in js:
+                _randomise(js[k], v[k], rnd)
+
+
+def bounded_check(contract, tree, count=40, seed=0):
+    """-> dict(instances, violations: [ {kwargs, detail} ], errors)"""
+    inst = random_instances(contract, count, seed)
+    viol = []
+    undecided = 0
+    for kw in inst:
+        r = check_concrete(contract, kw, tree)
+        if r.get("reproduced") is True:
+            viol.append({"kwargs": kw, "detail": r["detail"]})
+            break
+        if r.get("reproduced") is None:
+            undecided += 1
+    return {"instances": len(inst), "violations": viol, "undecided": undecided,
+            "bound": f"{len(inst)} seeded random instances, extents <= 6 (record lengths <= 20)"}
